@@ -66,4 +66,77 @@ theorem nuDelta_real (y r it maxIt b : ℝ) :
   show Num.mul y (Num.sub (Num.ofNat 1) (Num.pow r (Num.pow (nuInner it maxIt) b))) = _
   simp
 
+theorem sbxChild1_real (y1 y2 bq : ℝ) : sbxChild1 y1 y2 bq = 1 / 2 * (y1 + y2 - bq * (y2 - y1)) := by
+  show Num.mul (Num.ofRat (1 / 2)) (Num.sub (Num.add y1 y2) (Num.mul bq (Num.sub y2 y1))) = _
+  simp
+theorem sbxChild2_real (y1 y2 bq : ℝ) : sbxChild2 y1 y2 bq = 1 / 2 * (y1 + y2 + bq * (y2 - y1)) := by
+  show Num.mul (Num.ofRat (1 / 2)) (Num.add (Num.add y1 y2) (Num.mul bq (Num.sub y2 y1))) = _
+  simp
+
+/-- the spread factor chosen by the code (`rand <= 1/alpha` decides the branch) -/
+noncomputable def sbxBetaqR (gap dy eta rand : ℝ) : ℝ :=
+  if rand ≤ 1 / sbxAlpha (sbxBeta gap dy) eta then sbxBetaqLow rand (sbxAlpha (sbxBeta gap dy) eta) eta
+  else sbxBetaqHigh rand (sbxAlpha (sbxBeta gap dy) eta) eta
+
+theorem betaq_bounds (gap dy eta rand : ℝ) (hg : 0 ≤ gap) (hd : 0 < dy) (he : 0 ≤ eta)
+    (hr0 : 0 ≤ rand) (hr1 : rand < 1) :
+    0 ≤ sbxBetaqR gap dy eta rand ∧ sbxBetaqR gap dy eta rand ≤ sbxBeta gap dy := by
+  have hee : 0 < eta + 1 := by linarith
+  have hie : 0 ≤ 1 / (eta + 1) := le_of_lt (one_div_pos.mpr hee)
+  have hb : 1 ≤ sbxBeta gap dy := by
+    rw [sbxBeta_real]
+    have : 0 ≤ 2 * gap / dy := div_nonneg (by linarith) (le_of_lt hd)
+    linarith
+  have hb0 : 0 ≤ sbxBeta gap dy := by linarith
+  have hbpos : 0 < sbxBeta gap dy := by linarith
+  have hp0 : 0 < (sbxBeta gap dy) ^ (-(eta + 1)) := Real.rpow_pos_of_pos hbpos _
+  have hp1 : (sbxBeta gap dy) ^ (-(eta + 1)) ≤ 1 :=
+    Real.rpow_le_one_of_one_le_of_nonpos hb (by linarith)
+  have ha : sbxAlpha (sbxBeta gap dy) eta = 2 - (sbxBeta gap dy) ^ (-(eta + 1)) := sbxAlpha_real _ _
+  have ha1 : 1 ≤ sbxAlpha (sbxBeta gap dy) eta := by rw [ha]; linarith
+  have hapos : 0 < sbxAlpha (sbxBeta gap dy) eta := by linarith
+  unfold sbxBetaqR
+  split
+  · rename_i hbr
+    rw [sbxBetaqLow_real]
+    have hra0 : 0 ≤ rand * sbxAlpha (sbxBeta gap dy) eta := mul_nonneg hr0 (le_of_lt hapos)
+    have hra1 : rand * sbxAlpha (sbxBeta gap dy) eta ≤ 1 := by
+      rw [le_div_iff₀ hapos] at hbr
+      exact hbr
+    exact ⟨Real.rpow_nonneg hra0 _, le_trans (Real.rpow_le_one hra0 hra1 hie) hb⟩
+  · rw [sbxBetaqHigh_real]
+    have hlt : rand * sbxAlpha (sbxBeta gap dy) eta < sbxAlpha (sbxBeta gap dy) eta := by
+      have := mul_lt_mul_of_pos_right hr1 hapos
+      linarith
+    have hden : (sbxBeta gap dy) ^ (-(eta + 1)) < 2 - rand * sbxAlpha (sbxBeta gap dy) eta := by
+      rw [ha] at hlt ⊢
+      linarith
+    have hdpos : 0 < 2 - rand * sbxAlpha (sbxBeta gap dy) eta := lt_trans hp0 hden
+    have hbase0 : 0 ≤ 1 / (2 - rand * sbxAlpha (sbxBeta gap dy) eta) := le_of_lt (one_div_pos.mpr hdpos)
+    have hbase : 1 / (2 - rand * sbxAlpha (sbxBeta gap dy) eta) ≤ (sbxBeta gap dy) ^ (eta + 1) := by
+      have h1 : 1 / (2 - rand * sbxAlpha (sbxBeta gap dy) eta) ≤ 1 / (sbxBeta gap dy) ^ (-(eta + 1)) :=
+        one_div_le_one_div_of_le hp0 (le_of_lt hden)
+      rw [Real.rpow_neg hb0, one_div, one_div, inv_inv] at h1
+      rw [one_div]
+      exact h1
+    refine ⟨Real.rpow_nonneg hbase0 _, ?_⟩
+    have h := Real.rpow_le_rpow hbase0 hbase hie
+    rw [← Real.rpow_mul hb0, mul_one_div_cancel (ne_of_gt hee), Real.rpow_one] at h
+    exact h
+
+
+/-- core inequality: for `t = (1-d)^e ≤ val ≤ 1` the root `val^(1/e)` lies in `[1-d, 1]` -/
+theorem root_bounds (d e val : ℝ) (hd1 : d ≤ 1) (he : 0 < e)
+    (hv0 : (1 - d) ^ e ≤ val) (hv1 : val ≤ 1) :
+    1 - d ≤ val ^ (1 / e) ∧ val ^ (1 / e) ≤ 1 := by
+  have hb : 0 ≤ 1 - d := by linarith
+  have ht0 : 0 ≤ (1 - d) ^ e := Real.rpow_nonneg hb _
+  have hie : 0 ≤ 1 / e := le_of_lt (one_div_pos.mpr he)
+  constructor
+  · have h := Real.rpow_le_rpow ht0 hv0 hie
+    rw [← Real.rpow_mul hb, mul_one_div_cancel (ne_of_gt he), Real.rpow_one] at h
+    exact h
+  · exact Real.rpow_le_one (le_trans ht0 hv0) hv1 hie
+
+
 end Artap.Variation
